@@ -84,7 +84,7 @@ Proof. apply fr_same_actors. reflexivity. Qed.
 Lemma fr_stop s u self t s' o p : stop_if_parent_gone s u self t = (s', o, p) -> fr s s'.
 Proof.
   unfold stop_if_parent_gone. destruct (get s u) as [pa|]; [|intros H; inversion H; subst; apply fr_refl].
-  destruct (st_ge_terminating (a_st pa)); [|intros H; inversion H; subst; apply fr_refl].
+  destruct (not_alive (a_st pa)); [|intros H; inversion H; subst; apply fr_refl].
   destruct (terminate s self t (a_graceful pa)) as [s1 o1] eqn:E. intros H; inversion H; subst. eapply fr_terminate; exact E.
 Qed.
 
